@@ -7,6 +7,7 @@
                   against the real code, and to cross-check the shim.
 """
 import math
+import os
 import random
 import re
 import time
@@ -70,6 +71,10 @@ class Env:
         self.notes = []
         self.max_witness_tries = 40
         self.roundoff = 0
+        self.z3_budget = int(os.environ.get('OASVERIF_Z3_BUDGET', '12'))      # second-opinion queries per job
+        self.z3_every = int(os.environ.get('OASVERIF_Z3_EVERY', '7'))
+        self.z3_stats = dict(unsat=0, unknown=0, sat=0, skipped=0, secs=0.0)
+        self.z3_disagreements = []
         self.abs_roundoff = None
         self.indicator_branch = None   # 0/1: obligations are stated on the branch where every mask indicator has this value
         if self.sym:
@@ -222,10 +227,13 @@ class Env:
                 d = l - r
                 if self.indicator_branch is not None and d.p:
                     d = S.subs_indicators(d, self.indicator_branch)
+                d0 = d if (isinstance(d, RF) and d.p and not d.is_const()) else None
                 if d.p:
                     d = self._drop_roundoff(d, l, r)
                 if self._decide_zero(o, idx, d):
                     o.ok += 1
+                    if d0 is not None and self.z3_budget > 0 and (zlib.crc32(("%s|%s|%s" % (self.seed, name, idx)).encode()) % self.z3_every) == 0:
+                        self._second_opinion(o, idx, d0)
                 if o.sample is None and isinstance(l, RF) and len(l.p) > 0:
                     o.sample = "%s%s: %s == %s" % (name, list(idx), S.show(l, 4), S.show(r if isinstance(r, RF) else RF.const(S._tofrac(r)), 4))
             o.secs = time.time() - t0
@@ -236,6 +244,22 @@ class Env:
         sc = np.abs(L) + np.abs(R)
         self.numeric[name] = (np.abs(L - R), sc, L.copy(), R.copy())
         return None
+
+    def _second_opinion(self, o, idx, d):
+        """the same obligation exported to z3 (QF_NRA with the atoms' defining equations): the normaliser said the
+        difference is identically zero although it is not syntactically zero -- z3 should find 'd != 0' unsatisfiable"""
+        from . import smt
+        t0 = time.time()
+        try:
+            r = smt.second_opinion(d)
+        except Exception as e:          # export problems never affect the verdict
+            r = "skipped"
+        self.z3_stats[r] = self.z3_stats.get(r, 0) + 1
+        self.z3_stats["secs"] += time.time() - t0
+        if r != "skipped":
+            self.z3_budget -= 1
+        if r == "sat":
+            self.z3_disagreements.append("%s%s" % (o.name, list(idx)))
 
     def _drop_roundoff(self, d, l, r):
         """floats are treated as reals: concrete sub-computations done by real numpy before the engine sees them carry
